@@ -18,7 +18,7 @@ SPEC = {
              "distinct molecules with >=2 atoms, >=1 bond and at least one non-identity attribute (charge, coordinate, bond type != 1)"),
     "assumptions": ["the scratch flag 'explored' may appear on the serializer's argument with value False (the property allows exactly that)"],
     "monitors_required": ["c12_canon", "c12_canon_repeat", "c12_serialize", "c12_history_compare"],
-    "required_obs": {"quick": ["cov_noncontiguous_input_labels", "cov_foreign_attributes_with_common_names", "cov_other_drawing_same_identity", "cov_charged", "cov_bond_types", "cov_multi_component", "cov_corpus", "cov_foreign_attribute"]},
+    "required_obs": {"quick": ["cov_in_place_edit_between_calls", "cov_noncontiguous_input_labels", "cov_foreign_attributes_with_common_names", "cov_other_drawing_same_identity", "cov_charged", "cov_bond_types", "cov_multi_component", "cov_corpus", "cov_foreign_attribute"]},
     "watchdog_s": {"quick": 900, "thorough": 3600},
 }
 PLAN = {
@@ -104,6 +104,24 @@ def _run_case(ctx, case):
             if not ok:
                 return
         ctx.mon("c12_history_compare")
+    # the SAME object edited in place between two calls (a bond removed, an isotope label changed): the second result must be a renaming
+    # of the object as it is NOW (the contract on that call compares with the current argument)
+    if g0.number_of_edges() >= 1 and rng.random() < 0.5:
+        u, v = rng.choice(sorted(g0.edges()))
+        g0.remove_edge(u, v)
+        w = rng.choice(sorted(g0.nodes))
+        g0.nodes[w]["mass"] = (g0.nodes[w].get("mass") or 0) + 1
+        ic = g0.nodes[w].get("invariant_code")
+        if isinstance(ic, tuple) and len(ic) == 3:
+            g0.nodes[w]["invariant_code"] = (ic[0], g0.nodes[w]["mass"], ic[2])
+        ctx.evaluations += 1
+        ok, r_edit = molprops.guarded(ctx, {**case, "variant": "edited-in-place"}, c.canonicalize_molecule, g0)
+        if not ok:
+            return
+        ok, s_edit = molprops.guarded(ctx, {**case, "variant": "edited-in-place"}, s.serialize_molecule, r_edit)
+        if not ok:
+            return
+        ctx.count("cov_in_place_edit_between_calls")
     if any(d.get("chg") for _, d in g0.nodes(data=True)):
         ctx.count("cov_charged")
     if any(d.get("bond_type", 1) != 1 for _, _, d in g0.edges(data=True)):
